@@ -22,6 +22,8 @@ def run_step(step, pid, tier, seed):
         return _frame_strict(step)
     if step.get("kind") == "gen-scan":
         return _gen_scan(step)
+    if step.get("kind") == "gen-taglist":
+        return _gen_taglist(step)
     return {"undecided": ["unknown step kind %r" % step.get("kind")]}
 
 
@@ -184,4 +186,78 @@ def _gen_scan(step):
         res["obligations"] = 1
         res["discharged"] = 1
         res["samples"].append("C03-frame::generated-parsers-have-no-panicking-construct (mechanical scan of %d functions)" % nfn)
+    return res
+
+
+def _gen_taglist(step):
+    """C07 frame of the generated block parsers (mechanical, assumption A-GEN-C07 made checkable): in every generated `fn parse`
+    that recovers from unknown sub-elements, (1) the recovery call has the shape
+    `parser.handle_unknown_taggedstruct_tag(context, tag, is_block, &TAG_LIST)`, (2) it stands in the `_ =>` arm of the
+    `match tag { .. }` that dispatches the known sub-elements, and (3) the constant TAG_LIST declared in that function lists
+    exactly the string literals of the other arms of that match - i.e. the stoplist handed to the recovery function is the set
+    of tags the enclosing block really understands, which is what the proved exactness clause of the recovery function
+    (U-CUR keyword_skip_exact) is relative to. A deviation is reported as UNDECIDED ("frame lost")."""
+    import re
+    from . import rustlex
+    res = {"failures": [], "undecided": [], "bounded": [], "obligations": 0, "discharged": 0, "samples": [],
+           "cmd": "vf.steps gen-taglist (scan of the generated parse functions in a2lfile/src/specification.rs)",
+           "trusted": ["vf/steps.py gen-taglist (regular expressions over rustfmt-formatted generated code)"], "assumptions": []}
+    pth = os.path.join(vrun.REPO, "a2lfile", "src", "specification.rs")
+    try:
+        text = open(pth, encoding="utf-8").read()
+    except Exception as e:
+        res["undecided"].append("gen-taglist: cannot read specification.rs: %r" % e)
+        return res
+    cut = text.find("#[cfg(test)]")
+    sf = rustlex.SourceFile("a2lfile/src/specification.rs", text[:cut] if cut > 0 else text)
+    nrec = 0
+    bad = []
+    for it in sf.top:
+        if it.kind != "impl":
+            continue
+        for ch in sf.children(it):
+            if ch.kind != "fn" or ch.name not in ("parse", "parse_file"):
+                continue
+            body = sf.text[ch.body_open:ch.end]
+            calls = [m for m in re.finditer(r"handle_unknown_taggedstruct_tag\s*\(", body)]
+            if not calls:
+                continue
+            who = " ".join(sf.text[it.start:it.body_open].split())[:60]
+            for c in calls:
+                nrec += 1
+                args = re.match(r"handle_unknown_taggedstruct_tag\s*\(\s*context\s*,\s*tag\s*,\s*is_block\s*,\s*&TAG_LIST\s*,?\s*\)", body[c.start():c.start() + 200])
+                if not args:
+                    bad.append("%s: recovery call is not (context, tag, is_block, &TAG_LIST)" % who)
+                    continue
+                # the enclosing `match tag {` and its TAG_LIST constant: the nearest ones in front of the call
+                mpos = body.rfind("match tag {", 0, c.start())
+                tpos = body.rfind("const TAG_LIST", 0, c.start())
+                if mpos < 0 or tpos < 0:
+                    bad.append("%s: no `match tag` / TAG_LIST in front of the recovery call" % who)
+                    continue
+                tl = re.match(r"const TAG_LIST\s*:\s*\[&(?:'static )?str;\s*(\d+)usize\]\s*=\s*\[(.*?)\];", body[tpos:], re.S)
+                if not tl:
+                    bad.append("%s: TAG_LIST declaration not recognised" % who)
+                    continue
+                listed = re.findall(r'"((?:[^"\\]|\\.)*)"', tl.group(2))
+                if len(listed) != int(tl.group(1)):
+                    bad.append("%s: TAG_LIST length mismatch" % who)
+                    continue
+                arms = re.findall(r'^\s*"((?:[^"\\]|\\.)*)"\s*=>', body[mpos:c.start()], re.M)
+                if sorted(arms) != sorted(listed):
+                    bad.append("%s: TAG_LIST %s differs from the match arms %s" % (who, sorted(set(listed) - set(arms))[:3], sorted(set(arms) - set(listed))[:3]))
+                    continue
+                # the call must be the body of the wildcard arm
+                pre = body[mpos:c.start()]
+                if not re.search(r"_\s*=>\s*\{\s*parser\s*\.\s*$", pre):
+                    bad.append("%s: recovery call is not the `_ =>` arm of `match tag`" % who)
+    res["samples"].append("gen-taglist: %d recovery call sites in the generated parsers" % nrec)
+    if nrec < 20:
+        res["undecided"].append("gen-taglist: only %d recovery call sites found (layout of specification.rs changed?)" % nrec)
+    elif bad:
+        res["undecided"].append("frame lost (A-GEN-C07): %s" % "; ".join(bad[:5]))
+    else:
+        res["obligations"] = 1
+        res["discharged"] = 1
+        res["samples"].append("C07-frame::stoplist-is-the-tag-set-of-the-enclosing-block (mechanical scan of %d call sites)" % nrec)
     return res
